@@ -17,6 +17,7 @@ import (
 	"net"
 	"net/http"
 	"net/http/httptest"
+	"os"
 	"sort"
 	"strings"
 	"sync/atomic"
@@ -76,24 +77,34 @@ type relPlan struct {
 	ids   func(attempt int) []string
 }
 
+// Listener addresses of the real-address styles are node ids, so they are generated: random hosts in
+// 127.128.0.0/9, never 127.0.0.1 (where every other program on the machine asks the kernel for ports, and
+// where the source ports of all loopback connections live).  A port freed by a stopped node can then only
+// be bound again by this process - a probe of a dead node can never be answered by somebody else's server,
+// and nobody else's probe can reach one of these nodes.
 func genLoopHost(t *rapid.T) [3]int {
-	if rapid.Bool().Draw(t, "host127.0.0.1") {
-		return [3]int{0, 0, 1}
-	}
-	return [3]int{rapid.IntRange(0, 255).Draw(t, "a"), rapid.IntRange(0, 255).Draw(t, "b"), rapid.IntRange(1, 24).Draw(t, "c")}
+	return [3]int{rapid.IntRange(128, 255).Draw(t, "a"), rapid.IntRange(0, 255).Draw(t, "b"), rapid.IntRange(1, 24).Draw(t, "c")}
+}
+
+// privateLoopIP is where the listeners behind generated host names live: an address in 127.64.0.0/10 derived
+// from the pid, so that kernel-assigned ports are never recycled between concurrently running test processes
+// (the names, not these addresses, are the node ids: the case stays reproducible).
+func privateLoopIP() string {
+	pid := os.Getpid()
+	return fmt.Sprintf("127.%d.%d.%d", 64+(pid>>14)&63, (pid>>7)&127, 1+pid&127)
 }
 
 func hostStr(h [3]int) string { return fmt.Sprintf("127.%d.%d.%d", h[0], h[1], h[2]) }
 
-func genRelPlan(aliasListed bool) *rapid.Generator[relPlan] {
+func genRelPlan(aliasPct int) *rapid.Generator[relPlan] {
 	return rapid.Custom(func(t *rapid.T) relPlan {
 		styles := []string{"real:port-prefix", "real:port-prefix", "real:port-prefix", "real:port-chain", "real:port-only", "real:no-port", "named:prefix", "named:prefix", "named:suffix", "named:mixed"}
 		style := rapid.SampledFrom(styles).Draw(t, "style")
 		// the ":8081"-alias pair (X and X:8081 both members) ends most cases at the listed finding: keep it a minority class while listed
-		wantAlias := rapid.IntRange(0, 99).Draw(t, "aliasPair") < map[bool]int{true: 12, false: 40}[aliasListed]
+		wantAlias := rapid.IntRange(0, 99).Draw(t, "aliasPair") < aliasPct
 		n := rapid.IntRange(3, 4).Draw(t, "n")
 		h := genLoopHost(t)
-		h2 := [3]int{rapid.IntRange(0, 255).Draw(t, "a2"), rapid.IntRange(0, 255).Draw(t, "b2"), rapid.IntRange(30, 250).Draw(t, "c2")}
+		h2 := [3]int{rapid.IntRange(128, 255).Draw(t, "a2"), rapid.IntRange(0, 255).Draw(t, "b2"), rapid.IntRange(30, 250).Draw(t, "c2")}
 		switch style {
 		case "real:port-prefix":
 			p := rapid.IntRange(1025, 6552).Draw(t, "p")
@@ -145,9 +156,6 @@ func genRelPlan(aliasListed bool) *rapid.Generator[relPlan] {
 			perm := rapid.Permutation([]int{0, 1, 2, 3}).Draw(t, "idOrder")
 			return relPlan{style: style, ids: func(a int) []string {
 				hh := h
-				if hh == [3]int{0, 0, 1} {
-					hh = [3]int{0, 0, 2}
-				}
 				hh[1] = (hh[1] + a) % 256
 				host := hostStr(hh)
 				ids := []string{host}
@@ -301,7 +309,7 @@ func buildRelCluster(rt fataler, plan relPlan, cfgs []relCfg) *relCluster {
 		for _, id := range ids {
 			la := dialAddr(id)
 			if plan.named {
-				la = "127.0.0.1:0"
+				la = privateLoopIP() + ":0"
 			}
 			ln, err := net.Listen("tcp4", la)
 			if err != nil {
@@ -481,7 +489,15 @@ func TestPropEndToEndRelatedAddrs(t *testing.T) {
 	ctx := context.Background()
 	aliasListed := vstat.IsListed(sigAliasListed) || vstat.IsListed(sigAliasAdded)
 	rapid.Check(t, func(rt *rapid.T) {
-		plan := genRelPlan(aliasListed).Draw(rt, "plan")
+		// "failure first": a node dies and is detected before any request is routed.  Where requests come first, a cluster
+		// with an X / X:8081 pair mostly ends at the listed alias finding before its health attribution is ever looked at,
+		// so these cases carry most of the pairs.
+		failureFirst := rapid.IntRange(0, 3).Draw(rt, "failureFirst") == 0
+		aliasPct := map[bool]int{true: 12, false: 40}[aliasListed]
+		if failureFirst {
+			aliasPct = 50
+		}
+		plan := genRelPlan(aliasPct).Draw(rt, "plan")
 		n := len(plan.ids(0))
 		cfgs := make([]relCfg, n)
 		for i := range cfgs {
@@ -502,8 +518,11 @@ func TestPropEndToEndRelatedAddrs(t *testing.T) {
 		alphabet := dedupe(rapid.SliceOfN(subGen, 6, 12).Draw(rt, "subscribers"))
 		nops := rapid.IntRange(8, 28).Draw(rt, "nops")
 		killAt, detectAfter, victim := -1, 0, 0
-		if rapid.IntRange(0, 9).Draw(rt, "withFailure") < 4 {
+		if failureFirst || rapid.IntRange(0, 9).Draw(rt, "withFailure") < 4 {
 			killAt = rapid.IntRange(1, nops-1).Draw(rt, "killAt")
+			if failureFirst {
+				killAt = 0
+			}
 			victim = rapid.IntRange(0, n-1).Draw(rt, "victim")
 			ids0 := plan.ids(0)
 			for i, x := range ids0 { // where a pair X / X:8081 exists, the death of either end is the interesting one
@@ -512,6 +531,9 @@ func TestPropEndToEndRelatedAddrs(t *testing.T) {
 				}
 			}
 			detectAfter = rapid.SampledFrom([]int{0, 1, 2, 4}).Draw(rt, "detectAfter")
+			if failureFirst {
+				detectAfter = 0
+			}
 		}
 		var ops []relOp
 		var touched []string
@@ -859,7 +881,7 @@ func TestPropEndToEndRelatedAddrs(t *testing.T) {
 		for name, on := range map[string]bool{"rel:id-is-prefix-of-another": pre, "rel:id-is-suffix-of-another": suf, "rel:X-and-X:8081": alias,
 			"rel:differ-only-by-port": portOnly, "rel:id-without-port": noPort, "rel:named-hosts": plan.named, "rel:real-addresses": !plan.named,
 			"rel:node-failure": dead >= 0, "rel:alloc-after-failure": sawFailover, "rel:request-for-undetected-dead-owner": sawUndetected,
-			"rel:renewal": renewed, "rel:probe-round": probed || detected, "rel:forward-to-related-owner": relatedForward} {
+			"rel:renewal": renewed, "rel:probe-round": probed || detected, "rel:failure-before-any-request": failureFirst, "rel:forward-to-related-owner": relatedForward} {
 			if on {
 				cls = append(cls, name)
 			}
